@@ -235,6 +235,45 @@ def main(tier):
         static.setdefault(sig, dict(kind="stale", detail={"rows": []}, what=(
             "%s: the model's table declares a row the source no longer has (correspondence broken): %s.%s %s %s guard=%s" % (
                 r["type"], r["type"], r["func"], r["kind"], r["loc"], r["guard"]))))["detail"].setdefault("stale_rows", []).append(r)
+    # ---- additional obligations (tools/footprint/inner.go, go/types) ----
+    #  (1) the inner-container methods a wrapper calls under a read lock / no lock are READ-ONLY on their receiver:
+    #      discharges the `kind_matches` conjunct of guards_respected for the KRead rows of the abstract `Field.*` locations
+    #  (2) no unsynchronised package-level state in the packages of the concurrent files
+    inner = derived.get("inner")
+    if not inner:
+        static["C15:footprint:inner"] = dict(kind="footprint-tool", what="tools/footprint printed no inner-container / package-level analysis", detail={})
+        inner = {"obligations": [], "violations": [], "pkgvars_allowed": [], "pkgvars_violations": [], "problems": [], "skipped_exclusive": []}
+    cov["inner_readonly"] = {
+        "obligation": "every method of a foreign container called by a wrapper while it holds only a read lock (or none) writes nothing reachable from its receiver (transitively)",
+        "checked": sorted(set("%s -> %s" % (o["wrapper"], o["inner"]) for o in inner["obligations"])),
+        "violations": len(inner["violations"]), "functions_analysed": inner.get("functions_analysed"),
+        "writer_controls_seen_writing": inner.get("writer_controls"), "skipped_exclusive_lock": inner["skipped_exclusive"]}
+    cov["package_level_state"] = {
+        "rule": "a package-level variable of a concurrent package (or of a repository package it reaches) may only be written during package initialisation, "
+                "atomically, or under a package-level lock held by all its accessors",
+        "allow_list_derived_from_this_tree": inner["pkgvars_allowed"], "violations": inner["pkgvars_violations"]}
+    n_inner = len(inner["obligations"]) + len(inner["pkgvars_allowed"]) + len(inner["pkgvars_violations"])
+    cov["evaluations"] += n_inner
+    cov["traces_validated_against_impl"] += n_inner - len(inner["violations"]) - len(inner["pkgvars_violations"])
+    for o in inner["obligations"]:
+        c._distinct.add("inner:%s:%s" % (o["wrapper"], o["inner"]))
+    for pr in inner["problems"]:
+        static.setdefault("C15:footprint:inner", dict(kind="footprint-tool", what="tools/footprint (inner analysis): " + str(pr), detail={"problems": inner["problems"]}))
+    for o in inner["violations"]:
+        wtype = o["wrapper"].split(".")[0]
+        ws = (o.get("writes") or []) + (o.get("unknown") or [])
+        first = ws[0]
+        lock = ", ".join("%s:%s" % kv for kv in sorted(o["locks"].items())) or "no lock"
+        sig = "C15:%s:%s.*" % (wtype, o["field"])
+        static.setdefault(sig, dict(kind="inner-write", detail={"violations": []}, what=(
+            "%s: %s calls %s holding only [%s], but the inner method is not read-only: %s at %s in %s%s — the table's KRead row for %s.* "
+            "no longer covers the code (two readers race)" % (
+                wtype, o["wrapper"], o["inner"], lock, ("writes " if o.get("writes") else "") + first["what"], first["pos"], first["in"],
+                (" (via " + first["via"] + ")") if first.get("via") else "", o["field"]))))["detail"]["violations"].append(o)
+    for v in inner["pkgvars_violations"]:
+        static["C15:pkgvar:%s" % v["var"]] = dict(kind="pkgvar", detail=v, what=(
+            "unsynchronised package-level state: %s (%s) is %s: %s; also read in %s" % (
+                v["var"], v["type"], v["class"], "; ".join(v.get("writes") or []), ", ".join(v.get("read_in") or []) or "-")))
     # entry points and constructor-only helpers
     dec_entries = {}
     for r in declared:
@@ -276,7 +315,12 @@ def main(tier):
                      {"kind": "stress-run", "how": "h_race c15 %d %d %d" % (c.seed, iters, k), "stderr": err[-3000:]})
         # search: a static disagreement without a dynamic witness gets a longer, focused run
         if static and not races and m:
-            types = sorted(set(s.split(":")[1] for s in static if s.split(":")[1] in derived["types"]))
+            types = set(s.split(":")[1] for s in static if s.split(":")[1] in derived["types"])
+            for info in static.values():
+                if info["kind"] == "pkgvar":  # package-level state: the types of that package
+                    pk = info["detail"]["var"].rsplit(".", 1)[0]
+                    types |= set(t for t, v in derived["types"].items() if os.path.dirname(v["file"]) == pk)
+            types = sorted(types)
             for t in types[:4]:
                 filt = {"Value": "atomicx.Value"}.get(t, t)
                 rc2, out2, err2 = run_matrix(c, binary, 60 if tier == "quick" else 300, 40, filt=filt, timeout=600)
@@ -324,10 +368,13 @@ def finish(c):
                      "the client publishes the instance safely (constructor writes are outside the tables), never copies it, and does not mutate elements after handing them over; "
                      "user-supplied comparators / Delay / tasks / converters are outside the footprint",
                      "executions are sequentially consistent interleavings (DRF-SC); a failed CAS is treated as a write; RUnlock -> RLock and atomic store as acquire give no edge (fewer edges = stronger theorem)",
-                     "foreign containers behind a field (list.LinkedList, the embedded list.List, internal/queue.PriorityQueue, set.MapSet) are ONE abstract location `Field.*` classified read/write by method name"],
+                     "foreign containers behind a field (list.LinkedList, the embedded list.List, internal/queue.PriorityQueue, set.MapSet) are ONE abstract location `Field.*` classified read/write by method name; "
+                     "that the methods classified as readers really are read-only on everything reachable from their receiver is CHECKED on the current source (coverage.inner_readonly, all implementations of an "
+                     "interface-typed field), exclusive-lock callers are not constrained; sync.Pool/sync.Map/context behind syncx types stay trusted",
+                     "package-level variables are outside the tables: the current source is checked to write none after package initialisation (coverage.package_level_state lists the derived allow-list)"],
         trusted_base=["Coq 8.16.1 kernel + vm_compute", "no axioms (Print Assumptions: closed under the global context)",
                       "extraction ExtrOcamlBasic only; ocaml/drv_footprint.ml prints the declared tables",
-                      "tools/footprint (go/ast + go/parser; syntactic lock-context and alias analysis, inlining of package-local helpers), checks/c15.py (covers relation)",
+                      "tools/footprint (go/ast + go/parser; syntactic lock-context and alias analysis, inlining of package-local helpers; inner.go: go/types points-to-lite write summaries per function, flow-insensitive), checks/c15.py (covers relation)",
                       "Go race detector, tools/instrument + hooks/verifhook (chaos yields), harness/c15"])
 
 
